@@ -23,15 +23,20 @@ import (
 // re-attached: the epoch changes, in-flight messages are dropped) or fail the
 // client's stream. It is the S2 harness: the real client against a model relay.
 type RefRelay struct {
-	W        *World
-	Epoch    uint64
-	Reopens  int                     // remaining re-opens the environment may inject
-	Fails    int                     // remaining stream failures
-	Inbound  []*signaling.SessionMsg // messages from the partner to deliver to the client
-	n        int
-	Acked    []string
-	Dropped  []string
-	Received []string // acks from the client for inbound messages
+	W           *World
+	Epoch       uint64
+	Reopens     int                     // remaining re-opens the environment may inject
+	Fails       int                     // remaining stream failures
+	Resets      int                     // remaining "session state lost between two client streams" events
+	Detaches    int                     // remaining partner detach (Closed) + re-attach pairs
+	Inbound     []*signaling.SessionMsg // messages from the partner to deliver to the client
+	n           int
+	partnerGone bool
+	cur         *sigfake.Duplex
+	curAttached bool
+	Acked       []string
+	Dropped     []string
+	Received    []string // acks from the client for inbound messages
 	// Script, if set, replaces the honest handling of requests: it is called
 	// for every request and returns the responses to push.
 	Script func(r *RefRelay, req *signaling.SessionRequest) []*signaling.SessionResponse
@@ -50,6 +55,15 @@ func opened(e uint64) *signaling.SessionResponse {
 // Session starts a relay service thread for one client stream.
 func (r *RefRelay) Session(ctx context.Context) (signaling.SRPCSignaling_SessionClient, error) {
 	r.n++
+	if r.n > 1 && r.Resets > 0 {
+		// the client's previous stream is gone; if the partner left too the relay
+		// dropped the session state and epochs start over (environment choice)
+		if vsync.Choose(2) == 1 {
+			r.Resets--
+			r.Epoch = 0
+			vsync.Logf("env: relay session state reset")
+		}
+	}
 	d := sigfake.NewDuplex(ctx, fmt.Sprintf("a.s%d", r.n), r.W.IDs["A"], func(label string, m any) {
 		vsync.Logf("%s %s", label, r.W.describe(m))
 	})
@@ -60,6 +74,28 @@ func (r *RefRelay) Session(ctx context.Context) (signaling.SRPCSignaling_Session
 // perturb lets the environment re-open the session or fail the stream.
 // Returns false if the stream was failed.
 func (r *RefRelay) perturb(d *sigfake.Duplex, attached bool) bool {
+	if r.partnerGone {
+		return true
+	}
+	if attached && r.Detaches > 0 && vsync.Choose(2) == 1 {
+		r.Detaches--
+		r.partnerGone = true
+		r.Epoch++
+		vsync.Logf("env: partner detached")
+		_ = d.ToCli.Push(&signaling.SessionResponse{Body: &signaling.SessionResponse_Closed{Closed: true}})
+		// the partner comes back one (virtual) second later, on whatever stream
+		// the client has then
+		vsync.GoNamed(fmt.Sprintf("partner-back%d", r.Detaches), func() {
+			time.Sleep(time.Second)
+			r.partnerGone = false
+			r.Epoch++
+			vsync.Logf("env: partner re-attached epoch=%d", r.Epoch)
+			if r.cur != nil && r.curAttached {
+				_ = r.cur.ToCli.Push(opened(r.Epoch))
+			}
+		})
+		return true
+	}
 	n := 1
 	if attached && r.Reopens > 0 {
 		n++
@@ -86,6 +122,7 @@ func (r *RefRelay) perturb(d *sigfake.Duplex, attached bool) bool {
 
 func (r *RefRelay) serve(d *sigfake.Duplex) {
 	attached := false
+	r.cur, r.curAttached = d, false
 	for {
 		m, err := d.ToSrv.Pop(d.Context())
 		if err != nil {
@@ -104,13 +141,18 @@ func (r *RefRelay) serve(d *sigfake.Duplex) {
 		switch b := req.GetBody().(type) {
 		case *signaling.SessionRequest_Init:
 			attached = true
+			r.curAttached = true
+			if r.partnerGone {
+				r.Epoch++ // only this side attached; Opened follows when the partner is back
+				continue
+			}
 			r.Epoch += 2 // both sides attached
 			_ = d.ToCli.Push(opened(r.Epoch))
 			for _, in := range r.Inbound {
 				_ = d.ToCli.Push(&signaling.SessionResponse{Body: &signaling.SessionResponse_RecvMsg{RecvMsg: in}})
 			}
 		case *signaling.SessionRequest_SendMsg:
-			if req.GetSessionSeqno() != r.Epoch {
+			if r.partnerGone || req.GetSessionSeqno() != r.Epoch {
 				r.Dropped = append(r.Dropped, r.W.msgDesc(b.SendMsg))
 				vsync.Logf("relay: dropped stale %s (e=%d, now %d)", r.W.msgDesc(b.SendMsg), req.GetSessionSeqno(), r.Epoch)
 				continue
@@ -146,8 +188,13 @@ type S2 struct {
 
 // NewS2 builds client A against a reference relay that stands for partner B.
 func NewS2(reopens, fails int) *S2 {
+	return NewS2Ex(reopens, fails, 0, 0)
+}
+
+// NewS2Ex also bounds relay state resets and partner detach/re-attach pairs.
+func NewS2Ex(reopens, fails, resets, detaches int) *S2 {
 	w := NewWorld()
-	s := &S2{World: w, Relay: &RefRelay{W: w, Reopens: reopens, Fails: fails}}
+	s := &S2{World: w, Relay: &RefRelay{W: w, Reopens: reopens, Fails: fails, Resets: resets, Detaches: detaches}}
 	s.Ctx, s.Cancel = context.WithCancel(context.Background())
 	le := logrus.New()
 	le.SetOutput(io.Discard)
